@@ -245,6 +245,12 @@ func runC08(c *Ctx) {
 					}
 				case *ssa.BinOp:
 					x, y = cnd.X, cnd.Y
+					for _, side := range []ssa.Value{cnd.X, cnd.Y} {
+						if cl, ok := side.(*ssa.Call); ok && calleeName(cl.Common()) == "bytes.Compare" {
+							_, ca := callArgs(cl.Common())
+							x, y = ca[0], ca[1]
+						}
+					}
 				}
 				if x == nil {
 					continue
